@@ -1,0 +1,6 @@
+//go:build !verif
+
+// Package verifhook is a no-op unless built with the `verif` tag.
+package verifhook
+
+func Point(label string) {}
